@@ -1,6 +1,7 @@
 #!/usr/bin/env python3
-"""Developer helper: runs only the member-operator batches (ops mem / mems) of props/c14.py through harness and driver
-and reports differing lines.  `VERIF_REPO=<tree> corpus/C14/run_member.py [quick|thorough] [seed]`."""
+"""Developer helper: runs only the batches added in the extension round (systematic all-pairs batches and the member-operator
+batches, ops vecs / crs / sqs / mvs / mem / mems) of props/c14.py through harness and driver and reports differing lines.
+`VERIF_REPO=<tree> corpus/C14/run_member.py [quick|thorough] [seed]`."""
 import os
 import sys
 import time
@@ -19,7 +20,8 @@ print("harness", info.get("cached"), info.get("seconds"), info.get("error", "")[
 if binp is None:
     sys.exit(2)
 bad = 0
-for b in prop.member_batches(Rng(seed), tier == "thorough"):
+rng = Rng(seed)
+for b in list(prop.systematic_batches(rng, tier == "thorough")) + list(prop.member_batches(rng, tier == "thorough")):
     t1 = time.time()
     impl, deaths = runner.run_harness(binp, b.ops)
     t2 = time.time()
